@@ -19,6 +19,7 @@
     tokenize_print_roundtrip reader_inverts_layout interpolate_any_number_of_pieces
     raw_print_roundtrip_tokens raw_print_roundtrip source_text_eq_doc raw_loop_commutes
     scan_old_print_roundtrip raw_print_roundtrip_tokens_old raw_print_roundtrip_old source_text_eq_doc_old
+    scan_delims_default scan_delims_lossless scan_delims_print_roundtrip_partial
 -/
 import Genshi.Lemmas.TmplSimMain
 import Genshi.Lemmas.TmplSimRev
@@ -32,6 +33,8 @@ import Genshi.Lemmas.TmplScanText
 import Genshi.Lemmas.TmplScanOld
 import Genshi.Lemmas.TmplInv
 import Genshi.Lemmas.TmplInvOld
+import Genshi.Lemmas.TmplScanD
+import Genshi.Lemmas.TmplScanDPrint
 import Genshi.Lemmas.TmplRawLoop
 namespace Genshi.Props.C04
 open Genshi Genshi.Tmpl
@@ -852,5 +855,47 @@ example : rawToks true false (nodesOld exInvOld) = .ok (toTokss exInvOld) :=
   raw_print_roundtrip_old false exInvOld (by decide) (by decide)
 
 end Inversion
+
+/-! ### custom delimiters of `NewTextTemplate` (`Model/TmplScanD.lean`) -/
+
+section Delimiters
+open Genshi.Tmpl.Scan Genshi.Tmpl.ScanD
+
+/-- At the default delimiters the scanner and the unescape parameterised by the four delimiter
+    strings ARE the ones every other theorem is about. -/
+theorem scan_delims_default (s : List Char) : scanD dflt s = scanNew s ∧ unescapeD dflt s = unescapeNew s :=
+  ⟨scanD_default s, unescapeD_default s⟩
+
+/-- **Losslessness for all delimiters** inside the side condition `Delims.ok` (indeed whenever the two
+    comment delimiters are not both empty: `scanD_lossless`; with both empty it is false:
+    `scanD_lossless_needs_hyp`): the source texts of the tokens concatenate to the input. -/
+theorem scan_delims_lossless (d : Delims) (h : d.ok = true) (s : List Char) : (scanD d s).flatMap (srcD d) = s :=
+  scanD_lossless_of_ok d h s
+
+/-- **Printed constructs are scanned as themselves, for all delimiter choices** with `Delims.ok`
+    (non-empty delimiters; the directive end starts with a character that is neither `\w` nor `\s`).
+    Full statement (open): `(scanD d (printD d ts)).map (cookD d) = ts` for every well-formed token list
+    (needs in addition that no end delimiter ends in a backslash, and the text case with `escapeD`).
+    Proved here, whatever surrounds them: (1) a printed directive `SD cmd value ED` whose value does not
+    hold the end delimiter early (`OkDirD`) at a position not behind a backslash is exactly one token
+    with that command and value, and scanning resumes behind it; (2) the same for a printed comment
+    when the comment start is not also a directive start. -/
+theorem scan_delims_print_roundtrip_partial (d : Delims) (hd : d.ok = true) :
+    (∀ (cmd val : List Char), OkDirD d cmd val → ∀ (p : Char), p ≠ '\\' → ∀ (acc rest : List Char),
+      scanDGo d 0 p acc (printDTok d (.dir cmd val) ++ rest) =
+        flushText acc ++ RTok.dir (dirInner cmd val) cmd val ::
+          scanDGo d 0 (lastCh p (printDTok d (.dir cmd val))) [] rest) ∧
+    (∀ (b : List Char), NoOcc d.ec b → (∀ y, dropPrefix? d.sd (d.sc ++ y) = none) → ∀ (p : Char), p ≠ '\\' →
+      ∀ (acc rest : List Char),
+      scanDGo d 0 p acc (printDTok d (.comment b) ++ rest) =
+        flushText acc ++ RTok.comment b :: scanDGo d 0 (lastCh p (printDTok d (.comment b))) [] rest) :=
+  ⟨fun _ _ ok p hp acc rest => scanDGo_printed_dir d hd ok p hp acc rest,
+   fun _ h hsep p hp acc rest => scanDGo_printed_comment' d hd h hsep p hp acc rest⟩
+
+example : (⟨cs!"<<", cs!">>", cs!"<#", cs!"#>"⟩ : Delims).ok = true := by decide +kernel
+example : scanD ⟨cs!"<<", cs!">>", cs!"<#", cs!"#>"⟩ cs!"a<< if x >>b<# c #>" =
+    [.text cs!"a", .dir cs!" if x " cs!"if" cs!"x", .text cs!"b", .comment cs!" c "] := by decide +kernel
+
+end Delimiters
 
 end Genshi.Props.C04
